@@ -156,3 +156,195 @@ pub(crate) fn concrete_id(tag: u8, k: u8) -> crate::info_hash::InfoHash {
 pub(crate) fn concrete_addr_v4(k: u8) -> std::net::SocketAddr {
     std::net::SocketAddr::from((std::net::Ipv4Addr::new(10, 0, 0, k.wrapping_add(1)), 6881))
 }
+
+/// Stub for `std::hash::RandomState::new` (its real body reads OS randomness through an FFI call
+/// CBMC cannot model): fixed zero keys. No property depends on the hash seed.
+pub(crate) fn stub_random_state_new() -> std::hash::RandomState {
+    unsafe { std::mem::zeroed() }
+}
+
+/// id with leading-zero count (= shared prefix with an all-zero local id) `lz`, distinguished by `k`.
+pub(crate) fn id_with_prefix(lz: usize, k: u8) -> crate::info_hash::InfoHash {
+    let mut b = [0u8; 20];
+    if lz < 160 {
+        b[lz / 8] = 0x80 >> (lz % 8);
+    }
+    // distinguishing bytes at the end (kept clear of bit `lz` for lz < 144)
+    b[19] |= k.wrapping_add(1);
+    b.into()
+}
+
+// ---------------------------------------------------------------------------------------------
+// SHA-1 as a collision-free lazy random oracle (stub for InfoHash::sha1 in the token harnesses):
+// equal input (same length, same bytes) => same output; different input => different output.
+// ---------------------------------------------------------------------------------------------
+
+const ORACLE_SLOTS: usize = 12;
+static mut ORACLE_N: usize = 0;
+// input packed as (length, first 8 bytes, next 8 bytes, last 4 bytes)
+static mut ORACLE_IN: [(usize, u64, u64, u32); ORACLE_SLOTS] = [(0, 0, 0, 0); ORACLE_SLOTS];
+static mut ORACLE_OUT: [u64; ORACLE_SLOTS] = [0; ORACLE_SLOTS];
+
+pub(crate) fn oracle_reset() {
+    unsafe {
+        ORACLE_N = 0;
+    }
+}
+
+pub(crate) fn oracle_queries() -> usize {
+    unsafe { ORACLE_N }
+}
+
+fn pack(bytes: &[u8]) -> (usize, u64, u64, u32) {
+    let len = bytes.len();
+    assert!(len <= 20, "oracle: input longer than modelled");
+    let mut b = [0u8; 20];
+    let mut i = 0;
+    while i < len {
+        b[i] = bytes[i];
+        i += 1;
+    }
+    (
+        len,
+        u64::from_le_bytes([b[0], b[1], b[2], b[3], b[4], b[5], b[6], b[7]]),
+        u64::from_le_bytes([b[8], b[9], b[10], b[11], b[12], b[13], b[14], b[15]]),
+        u32::from_le_bytes([b[16], b[17], b[18], b[19]]),
+    )
+}
+
+pub(crate) fn stub_sha1(bytes: &[u8]) -> crate::info_hash::InfoHash {
+    let input = pack(bytes);
+    unsafe {
+        let mut found: Option<u64> = None;
+        let mut q = 0;
+        while q < ORACLE_N {
+            if ORACLE_IN[q] == input {
+                found = Some(ORACLE_OUT[q]);
+            }
+            q += 1;
+        }
+        let out = match found {
+            Some(o) => o,
+            None => {
+                assert!(ORACLE_N < ORACLE_SLOTS, "oracle: more queries than modelled");
+                let o: u64 = kani::any();
+                let mut q = 0;
+                while q < ORACLE_N {
+                    kani::assume(ORACLE_OUT[q] != o);
+                    q += 1;
+                }
+                ORACLE_IN[ORACLE_N] = input;
+                ORACLE_OUT[ORACLE_N] = o;
+                ORACLE_N += 1;
+                o
+            }
+        };
+        let ob = out.to_le_bytes();
+        let digest: [u8; 20] = [ob[0], ob[1], ob[2], ob[3], ob[4], ob[5], ob[6], ob[7], 0, 0, 0, 0, 0, 0, 0, 0, 0, 0, 0, 0];
+        digest.into()
+    }
+}
+
+// `rand::random::<u32>()` for token secrets: arbitrary, but a fresh secret never equals an earlier
+// one (a collision has probability 2^-32 per pair; stated assumption of C06).
+const SECRET_SLOTS: usize = 16;
+static mut SECRET_N: usize = 0;
+static mut SECRETS: [u32; SECRET_SLOTS] = [0; SECRET_SLOTS];
+
+pub(crate) fn secrets_reset() {
+    unsafe {
+        SECRET_N = 0;
+    }
+}
+
+pub(crate) struct DistinctRng;
+
+impl rand::RngCore for DistinctRng {
+    fn next_u32(&mut self) -> u32 {
+        let v: u32 = kani::any();
+        unsafe {
+            assert!(SECRET_N < SECRET_SLOTS, "more random secrets than modelled");
+            let mut i = 0;
+            while i < SECRET_N {
+                kani::assume(SECRETS[i] != v);
+                i += 1;
+            }
+            SECRETS[SECRET_N] = v;
+            SECRET_N += 1;
+        }
+        v
+    }
+    fn next_u64(&mut self) -> u64 {
+        kani::any()
+    }
+    fn fill_bytes(&mut self, dest: &mut [u8]) {
+        for b in dest.iter_mut() {
+            *b = kani::any();
+        }
+    }
+    fn try_fill_bytes(&mut self, dest: &mut [u8]) -> Result<(), rand::Error> {
+        self.fill_bytes(dest);
+        Ok(())
+    }
+}
+
+pub(crate) fn stub_random_distinct<T>() -> T
+where
+    rand::distributions::Standard: rand::distributions::Distribution<T>,
+{
+    use rand::distributions::Distribution;
+    rand::distributions::Standard.sample(&mut DistinctRng)
+}
+
+// ---------------------------------------------------------------------------------------------
+// serde error type without message formatting (error text is never the subject of a property).
+// ---------------------------------------------------------------------------------------------
+
+#[derive(Debug)]
+pub(crate) struct NoMsg;
+
+impl std::fmt::Display for NoMsg {
+    fn fmt(&self, _f: &mut std::fmt::Formatter<'_>) -> std::fmt::Result {
+        Ok(())
+    }
+}
+
+impl std::error::Error for NoMsg {}
+
+impl serde::de::Error for NoMsg {
+    fn custom<T: std::fmt::Display>(_msg: T) -> Self {
+        NoMsg
+    }
+    fn invalid_type(_unexp: serde::de::Unexpected, _exp: &dyn serde::de::Expected) -> Self {
+        NoMsg
+    }
+    fn invalid_value(_unexp: serde::de::Unexpected, _exp: &dyn serde::de::Expected) -> Self {
+        NoMsg
+    }
+    fn invalid_length(_len: usize, _exp: &dyn serde::de::Expected) -> Self {
+        NoMsg
+    }
+    fn unknown_variant(_variant: &str, _expected: &'static [&'static str]) -> Self {
+        NoMsg
+    }
+    fn unknown_field(_field: &str, _expected: &'static [&'static str]) -> Self {
+        NoMsg
+    }
+    fn missing_field(_field: &'static str) -> Self {
+        NoMsg
+    }
+    fn duplicate_field(_field: &'static str) -> Self {
+        NoMsg
+    }
+}
+
+impl serde::ser::Error for NoMsg {
+    fn custom<T: std::fmt::Display>(_msg: T) -> Self {
+        NoMsg
+    }
+}
+
+/// Stub for `alloc::fmt::format`: error/log text is not the subject of any property.
+pub(crate) fn stub_fmt_format(_args: std::fmt::Arguments<'_>) -> String {
+    String::new()
+}
